@@ -102,6 +102,9 @@ func monitorC06(mon *Mon, cur *SearchRecord, prev []*SearchRecord) {
 		inScope := cur.Opts.TopTermsCap <= 0 && len(toks) <= 10
 		if inScope {
 			mon.Tag("c06-pair-in-scope")
+			if len(p.IDs) > 100 {
+				mon.Tag("c06-pair-over-100-matches")
+			}
 			if appended && len(p.IDs) > 0 {
 				mon.Tag("c06-nontrivial")
 			}
@@ -218,12 +221,23 @@ func genSearchC06(r *Rng, tier string, idx int, args map[string]string) []string
 		maxN = 80
 	}
 	n := Pick(r, []int{0, 1, 3, 6, 10, 14, 20, maxN})
+	// now and then a database in which more than a hundred entries share a word, searched with a limit above
+	// a hundred: any fixed-size candidate window of the NLP stages (re-rank, cascade) then cuts into the matches
+	big := r.Chance(1, 12)
+	common := Pick(r, words)
+	if big {
+		n = Pick(r, []int{101, 104, 120, 140})
+	}
 	cmds := make([]database.Command, 0, n)
 	for i := 0; i < n; i++ {
 		if i > 0 && r.Chance(1, 8) {
 			cmds = append(cmds, cmds[r.Intn(i)])
 		} else {
 			cmds = append(cmds, c06Command(r, words))
+		}
+		if big {
+			cmds[i].Keywords = append(append([]string(nil), cmds[i].Keywords...), common)
+			cmds[i].Platform = nil
 		}
 	}
 	var dbWords []string
@@ -240,6 +254,9 @@ func genSearchC06(r *Rng, tier string, idx int, args map[string]string) []string
 		// excluded configuration (7 words, cap 7)
 		nw := Pick(r, []int{1, 2, 3, 4, 5, 6, 7, 7, 8, 9, 10, 10, 11, 12, 15, 20})
 		q := c06Query(r, words, hintWords, dbWords, nw)
+		if big {
+			q = common + " " + q
+		}
 		o := database.SearchOptions{}
 		lims := []int{n, n + 1, n + 7, 50 + n}
 		if n <= 10 {
